@@ -7,5 +7,6 @@ CONSTANTS
   Emit = TRUE
   Retries = 2
   RetrySwitchesPeer = FALSE
+  RemembersPrimary = FALSE
 INVARIANTS TypeOK EmitInv
 CHECK_DEADLOCK FALSE
